@@ -116,7 +116,7 @@ var clauseKeywords = map[string]bool{
 	"constglobal": true, "arith": true, "requires": true, "ensures": true, "modifies": true,
 	"decreases": true, "loop": true, "site": true, "ghost": true, "set": true, "safety": true,
 	"trusted": true, "prop": true, "nooverflow": true, "opt": true, "timeout": true, "import": true, "witness": true,
-	"pure": true, "pure-dynamic": true, "checked": true, "waitgroup": true, "hashed": true, "keyed": true, "guarded": true, "paired": true, "decides": true, "unguarded": true, "flow": true, "frame": true, "order": true, "gate": true, "effect": true, "equal": true, "unfold": true,
+	"pure": true, "pure-dynamic": true, "checked": true, "waitgroup": true, "hashed": true, "keyed": true, "guarded": true, "paired": true, "decides": true, "consulted": true, "unguarded": true, "flow": true, "frame": true, "order": true, "gate": true, "effect": true, "equal": true, "unfold": true,
 }
 
 // stripTrailingComment removes " // ..." outside string literals.
@@ -237,7 +237,7 @@ func (cs *ContractSet) LoadContractFile(path string, importPath string) error {
 			}
 			ax.E = e
 			cs.Axioms = append(cs.Axioms, ax)
-		case "view", "protect", "constglobal", "import", "pure", "pure-dynamic", "checked", "waitgroup", "hashed", "keyed", "guarded", "paired", "decides", "unguarded", "flow", "frame", "order", "gate", "effect", "equal":
+		case "view", "protect", "constglobal", "import", "pure", "pure-dynamic", "checked", "waitgroup", "hashed", "keyed", "guarded", "paired", "decides", "consulted", "unguarded", "flow", "frame", "order", "gate", "effect", "equal":
 			if cur != nil && (kw == "frame" || kw == "order" || kw == "equal") {
 				cur.Opts[kw] = strings.TrimSpace(cur.Opts[kw] + " " + rest)
 				break
